@@ -28,7 +28,7 @@ ASSUMPTIONS = [
 ]
 BUDGET = {
     "quick": {"shards": 16, "examples": 60, "wall": 110},
-    "thorough": {"shards": 16, "examples": 6000, "wall": 1200},
+    "thorough": {"shards": 16, "examples": 60000, "wall": 900},
 }
 
 
